@@ -163,7 +163,11 @@ class Project:
         if not os.environ.get('SA_NO_INLINE'):
             from .inline import undo_renames, undo_moves
             undo_moves(self.modules, log=self.inline_log)
+            from .inline import undo_method_aliases
+            undo_method_aliases(self.modules, log=self.inline_log)
             undo_renames(self.modules, log=self.inline_log)
+            from .inline import undo_attr_renames
+            undo_attr_renames(self.modules, log=self.inline_log)
             if Inliner(self.modules, log=self.inline_log).run():
                 for m in self.modules.values():
                     m.tree = normalize(m.tree)
